@@ -38,7 +38,7 @@ def seed_table():
         nd = [p for p, c in m["checks"].items() if not c["detected"]]
         cls = m["checks"][own].get("class")
         n += 1
-        rows.append(f"| {os.path.basename(d)} | {(m['files'] or ['?'])[0]} | {(m['summary'] or '')[:140].replace('|', '/')} | {(m['needs_to_manifest'] or '')[:120].replace('|', '/')} | {', '.join(det)} ({cls}) | {', '.join(nd) or '—'} |")
+        rows.append(f"| {os.path.basename(d)} | {(m['files'] or ['?'])[0]} | {' '.join((m['summary'] or '').split())[:140].replace('|', '/')} | {' '.join((m['needs_to_manifest'] or '').split())[:120].replace('|', '/')} | {', '.join(det)} ({cls}) | {', '.join(nd) or '—'} |")
     return "\n".join(rows), n
 
 
@@ -51,7 +51,7 @@ def harmless_table():
         note = ""
         if m.get("note"):
             note = " (false alarm, corrected: see 8.4)"
-        rows.append(f"| {os.path.basename(d)} | {', '.join(m.get('files', []))[:80]} | {m.get('summary', '')[:200].replace('|', '/')} | {len(ch)} | {', '.join(al) or 'none'}{note} |")
+        rows.append(f"| {os.path.basename(d)} | {', '.join(m.get('files', []))[:80]} | {' '.join(m.get('summary', '').split())[:200].replace('|', '/')} | {len(ch)} | {', '.join(al) or 'none'}{note} |")
     return "\n".join(rows)
 
 
